@@ -125,6 +125,12 @@ theorem only_dot_segments_redirect (tpl : List Seg) (vals : Bytes → Bytes) (hn
 /-- the outcome model's classes (what the correspondence run compares with the real stack). -/
 theorem outcome_ok_json_get : callOutcome { verb := "GET", ct := "application/json", pathDot := false, requiredZero := [false] } = "ok" := by decide
 theorem outcome_required_zero : callOutcome { verb := "GET", ct := "application/json", pathDot := false, requiredZero := [true] } = "required_query_zero_value" := by decide
+/-- a response without any populated field is zero bytes in binary, and the emitted client returns before any
+codec on an empty body: the octet-stream codec mismatch cannot show on a bodiless call that is answered with it. -/
+theorem outcome_octet_empty_response :
+    callOutcome { verb := "DELETE", ct := "application/octet-stream", pathDot := false, requiredZero := [], respEmpty := true } = "ok" ∧
+    callOutcome { verb := "DELETE", ct := "application/octet-stream", pathDot := false, requiredZero := [], respEmpty := false } = "content_type_codec_mismatch" ∧
+    callOutcome { verb := "POST", ct := "application/octet-stream", pathDot := false, requiredZero := [], respEmpty := true } = "content_type_codec_mismatch" := by decide
 theorem outcome_octet : callOutcome { verb := "POST", ct := "application/octet-stream", pathDot := false, requiredZero := [] } = "content_type_codec_mismatch" := by decide
 
 /-- non-vacuity of the chain theorem: template /users/{id}/posts, id = 42, 32 bits. -/
